@@ -10,3 +10,7 @@ chk('C08', 'proof',
     'As C07, for gates, bit manipulation, selectors and comparators: leaf contracts proved from source; every structural block proved against its truth table for all input values per configuration of the grid.',
     'Bounded in configuration only (width/arity/constant grid); data unbounded.',
     'contract-based deductive verification: per-leaf VCs from the AST, modular composition of leaf contracts, z3 (Int and BV)', 'DESIGN.md section 4 / C08')
+chk('C09', 'proof',
+    'Clocked leaves (Reg.clock, SynchronousMemory.clock, Sequence.clock, AutoReset.clock, Latch/AsynchronousMemory propagate) are proved from source against the state-machine rule of the statement (parametric widths where possible); each sequential library block is proved, per configuration, to refine its reference state machine by init/step/output obligations over all states and inputs, i.e. for input sequences of any length.',
+    'Bounded in configuration only (widths, depths, delays, moduli listed in evidence). Induction over edges is the meta-step. DualPortSynchronousMemory is a listed known finding.',
+    'contract-based deductive verification: leaf VCs from the AST + one-step refinement over composed leaf contracts, z3', 'DESIGN.md section 4 / C09')
